@@ -423,10 +423,43 @@ func parseHyphenRange(rangeStr string) ([]*constraint, error) {
 		return nil, fmt.Errorf("invalid end version in hyphen range: %s", end)
 	}
 
+	// A partial upper bound is a wildcard: "1.0 - 2.0" is ">=1.0.0 <2.1" and
+	// "1.0 - 2" is ">=1.0.0 <3.0" (Composer: versions and constraints, hyphenated ranges)
+	if isPlainNumeric(end) && !endVersion.isDev {
+		switch strings.Count(end, ".") {
+		case 0:
+			upper, err := e.NewVersion(fmt.Sprintf("%d.0.0", endVersion.major+1))
+			if err != nil {
+				return nil, err
+			}
+			return []*constraint{{operator: ">=", version: startVersion}, {operator: "<", version: upper}}, nil
+		case 1:
+			upper, err := e.NewVersion(fmt.Sprintf("%d.%d.0", endVersion.major, endVersion.minor+1))
+			if err != nil {
+				return nil, err
+			}
+			return []*constraint{{operator: ">=", version: startVersion}, {operator: "<", version: upper}}, nil
+		}
+	}
+
 	return []*constraint{
 		{operator: ">=", version: startVersion},
 		{operator: "<=", version: endVersion},
 	}, nil
+}
+
+// isPlainNumeric reports whether s consists of digits and dots only (after an optional v)
+func isPlainNumeric(s string) bool {
+	s = strings.TrimPrefix(s, "v")
+	if s == "" {
+		return false
+	}
+	for _, r := range s {
+		if (r < '0' || r > '9') && r != '.' {
+			return false
+		}
+	}
+	return true
 }
 
 // parseSpaceSeparatedConstraints handles space/comma-separated constraints
